@@ -35,7 +35,7 @@ UNIQ = 'xdoctest.doctest_example.DocTest.unique_callname'
 
 
 def run(ctx):
-    for fn in (r1_one_function_per_example, r2_identity, r3_one_entry_per_part, r4_dropped_lines, r5_want_comments, r6_indent, r7_prefix_free_text_is_exec_lines, r8_dump_text_always_emitted, r9_global_exec_separator_agrees, r10_dump_converts_the_enabled_doctests):
+    for fn in (r1_one_function_per_example, r2_identity, r3_one_entry_per_part, r4_dropped_lines, r5_want_comments, r6_indent, r7_prefix_free_text_is_exec_lines, r8_dump_text_always_emitted, r9_global_exec_separator_agrees, r10_dump_converts_the_enabled_doctests, r11_definite_assignment, r2b_name_is_an_identifier):
         ctx.rep.rule(fn, ctx)
 
 
@@ -322,6 +322,16 @@ def r4_dropped_lines(ctx):
     if inplace and not keeps:
         return
     rep.floor('C19.R4', 'keep sites in the line filter', len(keeps), 1)
+    # the filter is in force when the remove_import_star switch is ON, and the switch is on by default
+    sw_facts = [fa for fa in graph.guard_facts(ctx.dom(g, g.entry), ll) if fa.polarity in (True, False) and isinstance(fa.expr, ast.AST) and 'remove_import_star' in fa.text]
+    if sw_facts:
+        ok_sw = all(fa.polarity is True for fa in sw_facts)
+        dflt = [v for x in ast.walk(f.node) if isinstance(x, ast.Dict) for k, v in zip(x.keys, x.values) if isinstance(k, ast.Constant) and k.value == 'remove_import_star']
+        ok_df = bool(dflt) and all(isinstance(v, ast.Constant) and v.value is True for v in dflt)
+        rep.ob('C19.R4', ctx.loc(f, ll.ast), 'star imports are removed under %s (default %s)' % (fmt_facts(sw_facts), [ctx.src(v) for v in dflt]), ok_sw and ok_df,
+               'the removal runs when the switch is on, and it is on by default' if ok_sw and ok_df else
+               'the removal of star imports runs only when remove_import_star is %s / its default is %s: by default the star imports stay in the generated function body, '
+               'which is a SyntaxError (`import *` only allowed at module level)' % ('OFF' if not ok_sw else 'on', [ctx.src(v) for v in dflt]), anchor=CONV)
     keep_nodes = [n for (n, _) in keeps]
     # every path through an iteration that does not keep the line passes the true edge of the star-import test
     def is_star(fa):
@@ -335,6 +345,11 @@ def r4_dropped_lines(ctx):
     rep.ob('C19.R4', ctx.loc(f, ll.ast), 'a line is dropped only if it is a star import', wit is None and bool(star_true),
            'every iteration either keeps the line or took the `" import *" in line` branch' if wit is None and star_true else
            'an executable line can be dropped although it is not a star import', witness=graph.fmt_path(wit, f.module.relpath) if wit else None, anchor=CONV)
+    # ... and a star import IS dropped: from the true edge of the star test no keep site is reached within the iteration
+    leak = graph.path(star_true, lambda n: any(n is k for k in keep_nodes), efilter=graph.normal_only, stop=[ll]) if star_true else None
+    rep.ob('C19.R4', ctx.loc(f, ll.ast), 'a star import is dropped', leak is None and bool(star_true),
+           'the star branch ends the iteration without keeping the line' if leak is None and star_true else
+           'after the star-import test succeeded the line is kept all the same: `from x import *` lands inside the generated function', anchor=CONV)
     res = graph.count_events(bi, lambda n: n in keep_nodes, lambda n: n is ll, efilter=graph.normal_only)
     hi = max(r[2] for r in res.values()) if res else 0
     rep.ob('C19.R4', ctx.loc(f, ll.ast), 'a kept line is kept once', hi == 1, 'at most one append per line' if hi == 1 else 'a line can be emitted %d times' % hi, anchor=CONV)
@@ -531,12 +546,41 @@ def r10_dump_converts_the_enabled_doctests(ctx):
     run_as(ctx, c10.r5_gathering, 'C10.R5', 'C19.R10')
 
 
+def r11_definite_assignment(ctx):
+    """the converter builds Python text from locals: a local read before it was assigned aborts the dump with UnboundLocalError
+    (DEFINITE-ASSIGNMENT over runner.py, see common.definite_assignment)"""
+    from .common import definite_assignment
+    definite_assignment(ctx, 'C19.R11', {'xdoctest.runner'}, 10)
+
+
+def r2b_name_is_an_identifier(ctx):
+    """the generated `def` name is built from the module name and the callname, both dotted: every dot is replaced by an underscore
+    (`.replace('.', '_')`, in that argument order), otherwise `def test_pkg.mod_f_0():` is not Python"""
+    rep = ctx.rep
+    n = 0
+    for f in ctx.prog.funcs.values():
+        if f.module.name != 'xdoctest.runner':
+            continue
+        for c in walk_scope(f.node):
+            if isinstance(c, ast.Call) and isinstance(c.func, ast.Attribute) and c.func.attr == 'replace' and len(c.args) == 2 and all(isinstance(a, ast.Constant) for a in c.args) \
+                    and {c.args[0].value, c.args[1].value} == {'.', '_'} and any(isinstance(x, ast.Attribute) and x.attr in ('modname', 'callname') for x in ast.walk(c.func.value)):
+                n += 1
+                ok = c.args[0].value == '.'
+                rep.ob('C19.R2b', ctx.loc(f, c), ctx.src(c, 60), ok, 'dots become underscores' if ok else
+                       'the arguments of replace are swapped: underscores become dots, the dots of the module path stay, and the generated `def` line is a syntax error', anchor=f.qualname)
+    rep.floor('C19.R2b', 'dot replacements in the generated function name', n, 1)
+
+
 # ---------------------------------------------------------------------------
 from ..selftest import fire, silent      # noqa: E402
 
 RN = 'xdoctest/runner.py'
 US = 'xdoctest/utils/util_str.py'
 VARIANTS = [
+    fire('function-name-keeps-its-dots', 'C19.R2b', (RN, "example.modname.replace('.', '_')", "example.modname.replace('_', '.')")),
+    fire('star-import-removal-only-when-switched-off', 'C19.R4', (RN, "            if dump_config['remove_import_star']:\n", "            if not dump_config['remove_import_star']:\n")),
+    fire('star-import-kept-after-the-test', 'C19.R4', (RN, "                    if ' import *' in line:\n                        continue\n", "                    if ' import *' in line:\n                        pass\n")),
+    fire('want-comment-header-never-assigned', 'C19.R11', (RN, "                want_text = '# doctest want:\\n'\n", "                pass\n")),
     fire('dump-text-logged-at-default-level', 'C19.R8', (RN, "        _log(module_text, level=0)\n", "        _log(module_text)\n")),
     fire('dump-splits-global-exec-at-real-newlines', 'C19.R9', (RN, "example.config['global_exec'].split('\\\\n')", "example.config['global_exec'].split('\\n')")),
     fire('prefix-free-text-cut-from-prompted-lines', 'C19.R7', ('xdoctest/doctest_part.py', "        else:\n            src_text = self.source\n", "        else:\n            src_text = '\\n'.join(ln[4:] for ln in self.orig_lines) if self.orig_lines is not None else self.source\n")),
